@@ -132,7 +132,13 @@ def _huge(o, budget=[0]):
 def run_job(job):
     import execnet.gateway_base as gb
 
-    assert gb.__file__.startswith("/repo/src/"), gb.__file__
+    import os
+
+    if os.environ.get("SER_RELEASE"):
+        # the released execnet installed in the venv (an independent binary of the same dump format)
+        assert "site-packages" in gb.__file__, gb.__file__
+    else:
+        assert gb.__file__.startswith("/repo/src/"), gb.__file__
     cases = []
     for m in job.get("dump", []):
         for mode in job.get("modes", ["dumps"]):
@@ -145,4 +151,6 @@ def run_job(job):
 if __name__ == "__main__":
     job = json.load(open(sys.argv[1]))
     with open(sys.argv[2], "w") as f:
-        json.dump({"python": sys.version.split()[0], "cases": run_job(job)}, f)
+        import execnet
+
+        json.dump({"python": sys.version.split()[0], "execnet": getattr(execnet, "__version__", "?"), "cases": run_job(job)}, f)
